@@ -14,6 +14,8 @@ use std::sync::Arc;
 pub struct Tree {
     pub files: BTreeMap<String, Vec<u8>>,
     pub dirs: BTreeSet<String>,
+    /// symbolic links: path -> target (relative to the tree root; may dangle)
+    pub links: BTreeMap<String, String>,
 }
 
 impl Tree {
@@ -22,6 +24,9 @@ impl Tree {
     }
     pub fn dir(&mut self, path: impl Into<String>) {
         self.dirs.insert(path.into());
+    }
+    pub fn link(&mut self, path: impl Into<String>, target: impl Into<String>) {
+        self.links.insert(path.into(), target.into());
     }
     pub fn materialise(&self, root: &Path) -> std::io::Result<()> {
         std::fs::create_dir_all(root)?;
@@ -34,6 +39,13 @@ impl Tree {
                 std::fs::create_dir_all(parent)?;
             }
             std::fs::write(full, bytes)?;
+        }
+        for (p, target) in &self.links {
+            let full = root.join(p);
+            if let Some(parent) = full.parent() {
+                std::fs::create_dir_all(parent)?;
+            }
+            std::os::unix::fs::symlink(root.join(target), full)?;
         }
         Ok(())
     }
